@@ -60,7 +60,7 @@ def _verify_one(args):
                  time=round(vc.time, 4), path=''.join('T' if x else 'F' for x in vc.path),
                  reason=vc.reason)
         if vc.status == 'refuted' and vc.kind == 'obligation':
-            d['model'] = model_to_dict(vc.model)
+            d['model'] = vc.model if isinstance(vc.model, dict) or vc.model is None else model_to_dict(vc.model)
             d['goal'] = str(vc.goal)[:600]
         vcs.append(d)
     return dict(idx=idx, name=c.name(), status=r.status, detail=r.detail, vcs=vcs, paths=r.paths,
